@@ -233,7 +233,10 @@ impl NtpDuration {
 
         // Ensure proper saturating behaviour
         let duration = match i as i64 {
-            i if i32::try_from(i).is_ok() => (i << 32) | (f * 4_294_967_296.0) as i64,
+            // f can round up to exactly 1.0 for tiny negative inputs, keep it a fraction
+            i if i32::try_from(i).is_ok() => {
+                (i << 32) | ((f * 4_294_967_296.0) as i64).min(0xFFFF_FFFF)
+            }
             i if i < i32::MIN as i64 => i64::MIN,
             i if i > i32::MAX as i64 => i64::MAX,
             _ => unreachable!(),
